@@ -159,6 +159,7 @@ class FunctionSpec:
         self.path = path
         self.function = self.file = self.sig = self.inclass = self.unit = self.c = None
         self.nth = 1
+        self.lambda_n = None   # @lambda N: the function under contract is the N-th lambda body inside @function
         self.refparams = []
         self.locals = {}
         self.calls = []
@@ -184,6 +185,8 @@ class FunctionSpec:
                 setattr(self, k, v.strip())
             elif k == 'nth':
                 self.nth = int(v)
+            elif k == 'lambda':
+                self.lambda_n = int(v)
             elif k == 'refparams':
                 self.refparams = v.split()
             elif k == 'locals':
@@ -288,6 +291,8 @@ class UnitSpec:
         self.ghosts = {}
         self.fnslots = None
         self.cprefix = name
+        self.flags = []
+        self.lambdas = False   # @lambdas: lambda expressions in bodies become tokens VF_LAMBDA(k), k = ordinal in the function
         self.siblings = []
         self.rules = []
         self.after_structs = ''
@@ -321,6 +326,10 @@ class UnitSpec:
                 self.fnslots = v.strip()
             elif k == 'cprefix':
                 self.cprefix = v.strip()
+            elif k == 'lambdas':
+                self.lambdas = True
+            elif k == 'flags':
+                self.flags += v.split()
             elif k == 'siblings':
                 self.siblings += v.split()
             elif k == 'rule':
